@@ -217,10 +217,13 @@ class Check:
         for fid, what in self.known_seen.items():
             out_lines.append('KNOWN-FINDING: property=%s %s %s' % (self.pid, fid, what))
         rp_dir = os.path.join(VERIF, 'replays'); os.makedirs(rp_dir, exist_ok=True)
+        seen_paths = set()
         for v in report:
             blob = json.dumps(v, sort_keys=True, default=str)
             h = hashlib.sha1(blob.encode()).hexdigest()[:10]
             path = os.path.join(rp_dir, '%s-%s.json' % (self.pid, h))
+            if path in seen_paths: continue
+            seen_paths.add(path)
             json.dump({'property': self.pid, 'seed': self.seed, 'tier': self.tier, **v}, open(path, 'w'), indent=1, default=str)
             out_lines.append('VIOLATION property=%s replay=%s%s' % (self.pid, path, ' no-failing-input-found' if v['no_failing_input_found'] else ''))
         ev = {'property_id': self.pid, 'tier': self.tier, 'seed': self.seed, 'level': 'proof', 'coverage': self.cov,
